@@ -475,6 +475,33 @@ class SessionSim(Sim):
             if [observe.ekey(i) for i in a] != [observe.ekey(i) for i in b] or a != b:
                 raise self.v('nav-image-of-senses', 'Word.synsets() is not the image of '
                              'Word.senses()', {'cfg': ctx['cfg'], 'word': observe.ekey(x)})
+        full = m.image(S, relations=True, default_mode=default)
+        for x in w.words():
+            k = observe.ekey(x)
+            want = []
+            ok = True
+            for sk in exp['words'][k]['senses'].groups:
+                for s1 in sk:
+                    for r in full['senses'][s1]['relations']['senses'].items:
+                        if r['name'] != 'derivation':
+                            continue
+                        tw = full['senses'].get(r['target'], {}).get('word')
+                        if isinstance(tw, compare.Ambiguous):
+                            tw = tw.want
+                        if not isinstance(tw, str):
+                            ok = False
+                        want.append(tw)
+            if not ok:
+                continue
+            try:
+                got = [observe.ekey(d) for d in x.derived_words()]
+            except wn.Error:
+                continue
+            # one word per distinct (sense, derived sense) link; exact duplicates collapse
+            if sorted(set(got)) != sorted(set(want)) or len(got) < len(set(want)):
+                raise self.v('derived-words', 'Word.derived_words() is not the image of the '
+                             'derivation relations of its senses',
+                             {'cfg': ctx['cfg'], 'word': k, 'observed': got, 'expected': want})
         for ss in w.synsets():
             try:
                 a = ss.words()
